@@ -145,9 +145,9 @@ func ruleDEADST(w *World, r *Report) {
 						}
 						key := fmt.Sprintf("LOCALCOPY:%s:%s.%s", shortName(fn), al.Comment, fieldName(fa.X.Type(), fa.Field))
 						if readAfter(al, st) {
-							r.ok("DEADST", key, w.ipos(st), "the updated copy is read (or written back) afterwards")
+							r.ok("DEADST", key, w.ipos(st), "the updated copy is used as a whole (stored back, passed on or returned) afterwards")
 						} else {
-							r.bad("DEADST", key, w.ipos(st), fmt.Sprintf("%s.%s is assigned on a local copy of a slice/map element and the copy is never read afterwards: the update is lost (take the element's address or store the copy back)", al.Comment, fieldName(fa.X.Type(), fa.Field)))
+							r.bad("DEADST", key, w.ipos(st), fmt.Sprintf("%s.%s is assigned on a local copy of a slice/map element and the copy is never stored back, passed on or returned afterwards: the update is lost (take the element's address or store the copy back)", al.Comment, fieldName(fa.X.Type(), fa.Field)))
 						}
 					}
 				}
@@ -163,13 +163,10 @@ func readAfter(al *ssa.Alloc, st *ssa.Store) bool {
 	isRead := func(in ssa.Instruction) bool {
 		switch x := in.(type) {
 		case *ssa.UnOp:
-			if x.Op == token.MUL {
-				if x.X == ssa.Value(al) {
-					return true
-				}
-				if fa, ok := x.X.(*ssa.FieldAddr); ok && fa.X == ssa.Value(al) {
-					return true
-				}
+			// only a load of the whole copy can carry the update anywhere (store back, pass on, return);
+			// reading the field just assigned does not make the update visible to anyone else
+			if x.Op == token.MUL && x.X == ssa.Value(al) && len(referrersOf(x)) > 0 {
+				return true
 			}
 		case ssa.CallInstruction:
 			for _, a := range x.Common().Args {
@@ -279,7 +276,7 @@ func (w *World) filteredFields() []filteredField {
 				for _, ap := range apps {
 					// enclosing loop over a collection: an index phi compared with len(load C) that dominates the append
 					hdr, coll := enclosingLenLoop(ap.Block())
-					if hdr == nil {
+					if hdr == nil || coll == "" || !strings.HasPrefix(coll, ".") {
 						continue
 					}
 					// can the header be reached from the loop body without executing the append block?
